@@ -7,13 +7,16 @@ import (
 	"os"
 	"path/filepath"
 	"runtime"
+	"runtime/pprof"
 	"sort"
 	"strconv"
 	"strings"
 	"time"
 )
 
-var helperPkgs = []string{"weed/util", "weed/storage/types"}
+var exitHook func()
+
+var helperPkgs =[]string{"weed/util", "weed/storage/types"}
 
 type runOpts struct {
 	repo, verif string
@@ -31,6 +34,13 @@ func main() {
 	if len(os.Args) < 2 {
 		fmt.Fprintln(os.Stderr, "usage: gcv check|func|warm|replay ...")
 		os.Exit(2)
+	}
+	if p := os.Getenv("GCV_PPROF"); p != "" {
+		if f, err := os.Create(p); err == nil {
+			pprof.StartCPUProfile(f)
+			defer pprof.StopCPUProfile()
+			exitHook = func() { pprof.StopCPUProfile(); f.Close() }
+		}
 	}
 	switch os.Args[1] {
 	case "check":
@@ -251,6 +261,9 @@ func cmdCheck(args []string) {
 		fatalf("%v", err)
 	}
 	code := report(o, *prop, frs, time.Since(start).Seconds())
+	if exitHook != nil {
+		exitHook()
+	}
 	os.Exit(code)
 }
 
